@@ -78,6 +78,48 @@ pub fn run(ctx: &Ctx) -> i32 {
     }));
     let s1 = SubReport::new("destinations", "A", &format!("every sequence of ≤ {} tokens over {:?} ({} strings) as FileOptions destination through with_file + build; oracle: no panic; Err when the string does not start with '/' or './', has no name component or ends in '..'; non-trivial = accepted", maxlen, DTOK, n), a);
 
+    // ---- the same payload path named twice (two with_file calls), in its two spellings './P' and '/P'
+    let plen = if ctx.thorough() { 7 } else { 6 };
+    let np = strings_count(DTOK.len(), plen);
+    let a2 = merge(par_fold(np * 3, Acc::new, |j, acc| {
+        let (i, variant) = (j / 3, j % 3);
+        let mut t = vec![];
+        strings_nth(i, DTOK.len(), &mut t);
+        let d1: String = t.iter().map(|x| DTOK[*x]).collect();
+        let alt = if let Some(r) = d1.strip_prefix("./") {
+            format!("/{}", r)
+        } else if d1.starts_with('/') {
+            format!(".{}", d1)
+        } else {
+            return;
+        };
+        let (x, y) = match variant {
+            0 => (d1.clone(), d1.clone()),
+            1 => (d1.clone(), alt),
+            _ => (alt, d1.clone()),
+        };
+        acc.evals += 1;
+        let case = || json!({"kind": "destination-pair", "first": x, "second": y});
+        let r = catch(|| {
+            let b = PackageBuilder::new("t", "1", "MIT", "noarch", "s").compression(none).source_date(1_600_000_000u32);
+            let b = b.with_file(&src, FileOptions::new(x.clone())).map_err(|e| err_kind(&e))?;
+            let b = b.with_file(&src, FileOptions::new(y.clone())).map_err(|e| err_kind(&e))?;
+            b.build().map(|_| ()).map_err(|e| err_kind(&e))
+        });
+        match r {
+            Err(p) => acc.viol(panic_violation("destination-pairs", &p, case()).sig("arg", "destination").rank(j)),
+            Ok(Err(k)) => acc.count(&format!("rejected: {}", k)),
+            Ok(Ok(())) => {
+                acc.nontrivial += 1;
+                acc.count("accepted");
+                if j % 499 == 0 {
+                    acc.sample(j, case);
+                }
+            }
+        }
+    }));
+    let s1b = SubReport::new("destination-pairs", "A", &format!("two with_file calls naming the same payload path: every destination of ≤ {} tokens that starts with '/' or './' × {{twice the same string, './P' then '/P', '/P' then './P'}}; oracle: build returns Ok or Err, never panics. non-trivial = accepted", plen), a2);
+
     // ---- capability text (the acceptance iff is C19's; here: no panic and unknown text is an error)
     let ctoks = ["cap_chown", "all", "bogus", ",", "=", "+", "e", "p", " ", "\t", "é", "\0"];
     let n2 = strings_count(ctoks.len(), 4);
@@ -109,7 +151,7 @@ pub fn run(ctx: &Ctx) -> i32 {
 
     // ---- compression levels
     let mut levels: Vec<(String, CompressionWithLevel)> = vec![("none".into(), CompressionWithLevel::None)];
-    for l in [0u32, 1, 9, 10, 23, 100, 0x7fff_ffff, u32::MAX] {
+    for l in [0u32, 1, 9, 10, 23, 31, 32, 41, 64, 100, 255, 256, 1000, 1 << 30, (1 << 31) | 6, 0x7fff_ffff, u32::MAX] {
         levels.push((format!("gzip {}", l), CompressionWithLevel::Gzip(l)));
         levels.push((format!("xz {}", l), CompressionWithLevel::Xz(l)));
         levels.push((format!("bzip2 {}", l), CompressionWithLevel::Bzip2(l)));
@@ -134,7 +176,7 @@ pub fn run(ctx: &Ctx) -> i32 {
             }
         }
     }));
-    let s3 = SubReport::new("compression-levels", "A", &format!("{} (type, level) pairs: gzip / xz / bzip2 × {{0,1,9,10,23,100,2^31−1,2^32−1}}, zstd × {{i32::MIN,−200000,−131072,−1,0,1,22,23,100,i32::MAX}}; oracle: no panic; error, or a package whose payload decompresses and iterates", levels.len()), c);
+    let s3 = SubReport::new("compression-levels", "A", &format!("{} (type, level) pairs: gzip / xz / bzip2 × {{0,1,9,10,23,31,32,41,64,100,255,256,1000,2^30,2^31|6,2^31−1,2^32−1}}, zstd × {{i32::MIN,−200000,−131072,−1,0,1,22,23,100,i32::MAX}}; oracle: no panic; error, or a package whose payload decompresses and iterates", levels.len()), c);
 
     // ---- metadata strings and modes
     let texts = ["", "\0", "a\0b", "x", "ünï✓", "two\nlines", &"n".repeat(70), &"é".repeat(40), "name with spaces", "-", ":"];
@@ -180,14 +222,14 @@ pub fn run(ctx: &Ctx) -> i32 {
         }
     }));
     let s4 = SubReport::new("metadata", "A", "11 hostile strings (empty, NUL, embedded NUL, 70 bytes, 40 two-byte characters, newline, '-', ':') through each required field, all optional scalar setters, scriptlet / dependency / changelog / owner / symlink setters, and 8 mode integers (fifo, out of 16 bits, negative, i32::MAX) through FileOptions::mode; oracle: no panic", d);
-    for s in [&s1, &s2, &s3, &s4] {
+    for s in [&s1, &s1b, &s2, &s3, &s4] {
         if s.acc.nontrivial == 0 {
             crate::ctx::machinery(&format!("sub-check {} accepted nothing: vacuous", s.name));
         }
     }
     ctx.finish(
         "exploration",
-        vec![s1, s2, s3, s4],
+        vec![s1, s1b, s2, s3, s4],
         &[
             "which in-between destinations (e.g. '/a/.', '/../a') are accepted is not specified; they must only not panic and, if accepted, give a usable package",
             "timestamp arguments of non-integer types (chrono dates before 1970) are outside the statement's 'strings and numbers'",
